@@ -192,6 +192,13 @@ func (calc *convexHullCalculator) reduce(inputPts []float64) []float64 {
 		reducedSet.Insert(polyPts[i : i+calc.stride])
 	}
 
+	// IsPointInRing only walks consecutive coordinates, so the ring has to be
+	// closed (first point identical to last point) for its last edge to count.
+	ring := polyPts
+	if !internal.Equal(ring, 0, ring, len(ring)-calc.stride) {
+		ring = append(ring[:len(ring):len(ring)], ring[:calc.stride]...)
+	}
+
 	/**
 	 * Add all unique points not in the interior poly.
 	 * CGAlgorithms.isPointInRing is not defined for points actually on the ring,
@@ -200,7 +207,7 @@ func (calc *convexHullCalculator) reduce(inputPts []float64) []float64 {
 	 */
 	for i := 0; i < len(inputPts); i += calc.stride {
 		pt := geom.Coord(inputPts[i : i+calc.stride])
-		if !IsPointInRing(calc.layout, pt, polyPts) {
+		if !IsPointInRing(calc.layout, pt, ring) {
 			reducedSet.Insert(pt)
 		}
 	}
